@@ -145,21 +145,43 @@ class World:
         return sent, sunk, calls, polls
 
     def tables(self):
-        """Abstraction of the hub's rule tables to bags of names (a structure this cannot read is a harness error)."""
-        hub = self.hub
-        name_of = {id(ep): n for n, ep in self.eps.items()}
-        sink_of = {id(o): n for n, o in self.sinks.items()}
-        src_of = {id(o): n for n, o in self.srcs.items()}
-
-        def nm(table, x):
-            x = self._owner(x)
-            return table.get(id(x), "?" + (x if isinstance(x, str) else type(x).__name__))
-        if list(hub.endpoints.keys()) != list(self.eps.keys()) or any(hub.endpoints[n] is not self.eps[n] for n in self.eps):
-            raise HarnessError("the hub's endpoint table is no longer the one the harness installed")
-        return {"fwd": Counter((i, nm(name_of, x)) for i, v in hub.forwarding.items() for x in v),
-                "sinks": Counter((i, nm(sink_of, x)) for i, v in hub.output_functions.items() for x in v),
-                "srcs": Counter((o, nm(src_of, x)) for o, v in hub.input_functions.items() for x in v),
-                "open": {n for n, ep in self.eps.items() if ep.open}}
+        """The hub's rule set, OBSERVED, not read: how the hub stores its rules is its own business (names, objects, one
+        table or three).  On a pickled copy of this world every endpoint is opened, handed one probe message and asked to
+        receive it, then one spin runs with no data anywhere; who was served is the rule set (with multiplicities).
+        The copy is thrown away, so probing leaves no trace in the explored state."""
+        import pickle
+        probe = pickle.loads(pickle.dumps(self, protocol=4))
+        hub = probe.hub
+        fwd, sinks, srcs = Counter(), Counter(), Counter()
+        try:
+            for name in probe.eps:
+                if not probe.eps[name].open:
+                    hub.openCom(name)
+            for name in probe.eps:
+                probe.reset_logs()
+                probe.script(name, ["probe:" + name])
+                hub.getData(name)
+                sent, sunk, _, _ = probe.observe()
+                for (dest, x), n in sent.items():
+                    fwd[(name, dest if x == "probe:" + name else "?%s:%r" % (dest, x))] += n
+                for (k, x), n in sunk.items():
+                    sinks[(name, k if x == "probe:" + name else "?%s:%r" % (k, x))] += n
+            probe.reset_logs()
+            for name in probe.eps:
+                probe.script(name, [None])
+            hub.spin(1)
+            sent, sunk, calls, _ = probe.observe()
+            for (dest, x), n in sent.items():
+                if x is None:
+                    continue        # a no-data receive that fans out None is the delivery clauses' business, not a rule
+                sname = x[4:] if isinstance(x, str) and x.startswith("src:") else "?%r" % (x,)
+                srcs[(dest, sname)] += n
+            for (k, x), n in sunk.items():
+                if x is not None:
+                    sinks[("?spin", "%s:%r" % (k, x))] += n
+        except Exception as e:      # a probe that raises is an observation (it will not match the model's tables)
+            fwd[("?probe raised", "%s: %s" % (type(e).__name__, str(e)[:120]))] += 1
+        return {"fwd": fwd, "sinks": sinks, "srcs": srcs, "open": {n for n, ep in self.eps.items() if ep.open}}
 
     def key_struct(self):
         hub = self.hub
@@ -167,11 +189,23 @@ class World:
         fn_of = {id(o): "sink:" + n for n, o in self.sinks.items()}
         fn_of.update({id(o): "src:" + n for n, o in self.srcs.items()})
 
-        def ref(x):
+        def ref(x, depth=0):
+            # containers are rendered element by element (a field that caches a tuple of handlers must not collapse to
+            # "some tuple": two states that differ only inside it have different futures); a bound method is its owner plus
+            # its name
+            if isinstance(x, dict) and depth < 6:
+                return {"dict": sorted(([repr(k), ref(v, depth + 1)] for k, v in x.items()), key=lambda kv: kv[0])}
+            if isinstance(x, (list, tuple)) and depth < 6:
+                return {type(x).__name__: [ref(v, depth + 1) for v in x]}
+            if isinstance(x, (set, frozenset)) and depth < 6:
+                return {"set": sorted((json.dumps(ref(v, depth + 1), sort_keys=True, default=repr) for v in x))}
+            meth = getattr(x, "__name__", None) if hasattr(x, "__self__") else None
             x = self._owner(x)
             if id(x) in name_of:
-                return "ep:" + name_of[id(x)]
-            return fn_of.get(id(x), x if isinstance(x, (str, int, float, bool, type(None))) else "?" + type(x).__name__)
+                r = "ep:" + name_of[id(x)]
+            else:
+                r = fn_of.get(id(x), x if isinstance(x, (str, int, float, bool, type(None))) else "?" + type(x).__name__)
+            return r if meth is None or id(x) in fn_of else "%s.%s" % (r, meth)
         d = {"hub": {}}
         for f, v in vars(hub).items():
             if f == "endpoints":
@@ -188,7 +222,7 @@ class World:
                 if f in skip:
                     continue
                 if f == "comm_handle" and isinstance(v, rm.FakeSocket):
-                    v = {g: w for g, w in vars(v).items() if g not in _EP_LOGS}
+                    v = {g: w for g, w in vars(v).items() if g not in _EP_LOGS and g != "_pair"}
                 fields[f] = v
             eps[n] = fields
         d["eps"] = eps
@@ -205,7 +239,8 @@ def build_world(cfg_name, full_key=False, hub_cls=None):
     for i, name in enumerate(cfg["eps"]):
         if name in cfg["udp"]:
             rm.install_fake_socket()
-            hub.newComPort(name, "UDP", "127.0.0.1", 8000 + i, 9000 + i)
+            # (a tiny time-out: a library that really waits for a descriptor then waits 0.2 ms per empty receive)
+            hub.newComPort(name, "UDP", "127.0.0.1", 8000 + i, 9000 + i, 0.0002)
             if hub.openCom(name) is not True or not isinstance(hub.getCom(name).comm_handle, rm.FakeSocket):
                 raise HarnessError("could not open the UDP endpoint on the fake socket")
         else:
